@@ -77,9 +77,9 @@ theorem scanSkipSpace_lowerHex (c : Char) (r : Str) (h : isLowerHex c = true) : 
     omega
   simp [scanSkipSpace, h1, h2]
 
-theorem parseBits256Scan_print (bs : List UInt8) (h : bs.length = 32) :
-    parseBits256Scan (printBitsN bs) = .ok bs := by
-  unfold parseBits256Scan printBitsN quote
+theorem parseBits256ScanR_print (bs : List UInt8) (h : bs.length = 32) :
+    parseBits256ScanR (printBitsN bs) = .ok bs := by
+  unfold parseBits256ScanR printBitsN quote
   rw [List.cons_append]
   match hh : hexLower bs with
   | [] =>
@@ -95,6 +95,17 @@ theorem parseBits256Scan_print (bs : List UInt8) (h : bs.length = 32) :
       | nil => cases h
       | cons _ _ => rfl
     simp [hne, h]
+
+theorem parseBits256Scan_print (bs : List UInt8) (h : bs.length = 32) :
+    parseBits256Scan (printBitsN bs) = .ok bs := by
+  unfold parseBits256Scan
+  rw [utf8Decode_ascii, parseBits256ScanR_print bs h]
+  intro c hc
+  simp only [printBitsN, quote, List.mem_append, List.mem_cons, List.not_mem_nil, or_false] at hc
+  rcases hc with (rfl | hc) | rfl
+  · decide
+  · exact lowerHex_ascii c (hexLower_chars bs c hc)
+  · decide
 
 /-! ### tl.Int256 through json.Unmarshal into a string -/
 
@@ -199,8 +210,8 @@ theorem scanHexPairs_total (s : Str) : (scanHexPairs s).isPanic = false := by
           · rfl
           · rename_i e he; rw [he] at ihr; cases ihr
 
-theorem total_parseBits256Scan (p : Str) : (parseBits256Scan p).isPanic = false := by
-  unfold parseBits256Scan
+theorem total_parseBits256ScanR (p : Str) : (parseBits256ScanR p).isPanic = false := by
+  unfold parseBits256ScanR
   split
   · rename_i r
     have h1 := scanSkipSpace_total r
@@ -220,6 +231,9 @@ theorem total_parseBits256Scan (p : Str) : (parseBits256Scan p).isPanic = false 
     · rfl
     · rename_i e he; rw [he] at h1; cases h1
   · rfl
+
+theorem total_parseBits256Scan (p : Str) : (parseBits256Scan p).isPanic = false :=
+  total_parseBits256ScanR _
 
 theorem unmarshalString_total (p : Str) : (unmarshalString p).isPanic = false := by
   unfold unmarshalString
